@@ -245,11 +245,17 @@ func (c *canceller) Preempt(ctx context.Context, req *jsonrpc.Request) (result a
 	// Only a notification can be a cancellation: a call that misuses the
 	// method name is left to the handler, which rejects it as an invalid request.
 	if req.Method == notificationCancelled && !req.IsCall() {
-		var params CancelledParams
+		// Decode the request ID from its raw token, as the ID of the request
+		// itself was decoded: going through CancelledParams.RequestID (an any,
+		// hence a float64) would round integers beyond 2^53 and cancel nothing,
+		// or the wrong request.
+		var params struct {
+			RequestID json.RawMessage `json:"requestId"`
+		}
 		if err := internaljson.Unmarshal(req.Params, &params); err != nil {
 			return nil, err
 		}
-		id, err := jsonrpc2.MakeID(params.RequestID)
+		id, err := jsonrpc2.DecodeID(params.RequestID)
 		if err != nil {
 			return nil, err
 		}
